@@ -358,46 +358,88 @@ def rule_set(ck):
 
 
 def rule_config(ck):
+    """parse_config_file, decided by finite-domain evaluation: for every combination of (value kind, option.type is str,
+    option.multiple) the loop body is folded (named booleans and aliases included) and must reach exactly parse / set / raise."""
     fi = ck.func(F, "OptionParser.parse_config_file")
     cfg = fi.cfg
     parses = call_sites(fi, ".parse")
     sets = call_sites(fi, ".set")
     ck.floor("C44.config-dispatch", len(parses), 1, "option.parse sites in parse_config_file")
     ck.floor("C44.config-dispatch", len(sets), 1, "option.set sites in parse_config_file")
-    # the value expression: argument of parse
-    val = q.unparse(parses[0][1].args[0]) if parses[0][1].args else None
-    if val is None:
+    if not parses[0][1].args:
         raise AnalysisError("option.parse() without argument in parse_config_file")
-    IS_STR = {"type(%s) is str" % val, "isinstance(%s, str)" % val, "type(%s) == str" % val}
+    V = resolve_local(fi, parses[0][1].args[0])
+    if not isinstance(V, ast.Subscript):
+        raise AnalysisError("parse_config_file: the parsed value is not an element of the config namespace")
+    vtxt = q.unparse(V)
     recv = q.receiver(parses[0][1])
-    TYPE_STR = {"%s.type is str" % recv, "%s.type == str" % recv}
-    MULT = "%s.multiple" % recv
-    tracked = IS_STR | TYPE_STR | {MULT}
-    seen = explore(cfg, 0, lambda n, v: v, lambda t: t in tracked, follow_exc=False)
+    is_V = lambda x: q.unparse(resolve_local(fi, x)) == vtxt
+    for node, c in parses + sets:
+        ck.ob("C44.config-dispatch", fi, c, len(c.args) == 1 and is_V(c.args[0]) and q.receiver(c) == recv, "the config value itself is handed to the option")
 
-    def read(facts):
-        fs = dict(facts)
-        s = [fs[t] for t in IS_STR if t in fs]
-        ts = [fs[t] for t in TYPE_STR if t in fs]
-        return (s[0] if s else None, ts[0] if ts else None, fs.get(MULT))
+    def make_subst(kind, type_str, mult):
+        def kind_of(t):
+            if isinstance(t, ast.Name):
+                return {"str": kind == "str", "list": kind == "list"}.get(t.id)
+            if isinstance(t, ast.Tuple):
+                ks = [kind_of(x) for x in t.elts]
+                return None if None in ks else any(ks)
+            return None
 
-    for node, c in parses:
-        ck.ob("C44.config-dispatch", fi, c, len(c.args) == 1 and q.unparse(c.args[0]) == val, "the config value itself is parsed")
-        for facts, _v in sorted(seen.get(node.id, ()), key=repr):
-            is_str, type_str, mult = read(facts)
-            if is_str is None:
-                raise AnalysisError("parse_config_file reaches option.parse without a recognised `is str` test on the value (unknown idiom)")
-            ck.ob("C44.config-dispatch", fi, c, is_str is True, "only str values are handed to the text parser (lists / typed values go through set())",
-                  construct="parse is_str=%s type_is_str=%s multiple=%s" % (is_str, type_str, mult))
-    for node, c in sets:
-        ck.ob("C44.config-dispatch", fi, c, len(c.args) == 1 and q.unparse(c.args[0]) == val, "the config value itself is set")
-        for facts, _v in sorted(seen.get(node.id, ()), key=repr):
-            is_str, type_str, mult = read(facts)
-            if is_str is None:
-                raise AnalysisError("parse_config_file reaches option.set without a recognised `is str` test on the value (unknown idiom)")
-            ok = is_str is False or (type_str is True and mult is False)
-            ck.ob("C44.config-dispatch", fi, c, ok, "a str given for a non-str (or multiple) option is never stored unparsed: set() sees non-str values, or str for plain str options",
-                  construct="set is_str=%s type_is_str=%s multiple=%s" % (is_str, type_str, mult))
+        class T(ast.NodeTransformer):
+            def visit_Compare(self, node):
+                if len(node.ops) == 1:
+                    l, op, r = node.left, node.ops[0], node.comparators[0]
+                    if isinstance(l, ast.Call) and q.dotted(l.func) == "type" and len(l.args) == 1 and is_V(l.args[0]) and isinstance(r, ast.Name) and isinstance(op, (ast.Is, ast.Eq, ast.IsNot, ast.NotEq)):
+                        k = kind_of(r)
+                        if k is not None:
+                            return ast.Constant(value=k if isinstance(op, (ast.Is, ast.Eq)) else not k)
+                    if q.dotted(l) == recv + ".type" and isinstance(r, ast.Name) and r.id == "str" and isinstance(op, (ast.Is, ast.Eq, ast.IsNot, ast.NotEq)):
+                        return ast.Constant(value=type_str if isinstance(op, (ast.Is, ast.Eq)) else not type_str)
+                    if isinstance(op, (ast.In, ast.NotIn)) and q.dotted(r) == "self._options":
+                        return ast.Constant(value=isinstance(op, ast.In))  # a defined option is being considered
+                return self.generic_visit(node)
+
+            def visit_Call(self, node):
+                if q.dotted(node.func) == "isinstance" and len(node.args) == 2 and is_V(node.args[0]):
+                    k = kind_of(node.args[1])
+                    if k is not None:
+                        return ast.Constant(value=k)
+                return self.generic_visit(node)
+
+            def visit_Attribute(self, node):
+                if q.dotted(node) == recv + ".multiple":
+                    return ast.Constant(value=mult)
+                return self.generic_visit(node)
+
+        import copy as _copy
+        return lambda e: T().visit(_copy.deepcopy(e))
+
+    pid = {n.id for n, _c in parses}
+    sid = {n.id for n, _c in sets}
+    event = lambda n: "parse" if n.id in pid else ("set" if n.id in sid else None)
+    rows = 0
+    for kind in ("str", "list", "other"):
+        for type_str in (True, False):
+            for mult in (True, False):
+                outs = concrete_paths(fi, {}, event, subst=make_subst(kind, type_str, mult), cut=lambda n, trace: n.kind == "for" and len(trace) > 0)
+                outs = {(k, t) for k, t in outs if t or k == "raise"}
+                got = sorted({("raise",) if k == "raise" and not t else t for k, t in outs})
+                if len(got) != 1:
+                    raise AnalysisError("parse_config_file: outcome for (value is %s, option.type is str=%s, multiple=%s) is not determined by folding (%s)" % (kind, type_str, mult, got))
+                if kind == "str" and (not type_str or mult):
+                    want = [("parse",)]
+                    why = "a str given for a non-str or multiple option is parsed like a command-line value (never stored unparsed)"
+                elif kind == "other" and mult:
+                    want = [("raise",), ("set",)]
+                    why = "a non-list, non-str value for a multiple option is rejected"
+                else:
+                    want = [("set",)]
+                    why = "typed values (and str for plain str options) go through the type-checking set()"
+                rows += 1
+                ck.ob("C44.config-dispatch", fi, fi.node, got[0] in want, "%s (value kind %s, type is str=%s, multiple=%s -> %s)" % (why, kind, type_str, mult, ",".join(got[0])),
+                      construct="config kind=%s type_str=%s multiple=%s -> %s" % (kind, type_str, mult, ",".join(got[0])))
+    ck.floor("C44.config-dispatch", rows, 12, "rows of the config dispatch table")
     # only names of defined options are applied
     facts = must_facts(cfg)
     for node, c in parses + sets:
@@ -485,7 +527,7 @@ def rule_whole_text(ck):
                 raise AnalysisError("_parse_timedelta: expected one loop over the scan position")
             lp = loops[0]
             try:
-                ts = q.truth_set(lp.test, pos, range(0, 6), {prm: "abcd"})
+                ts = q.truth_set(expand_locals(td, lp.test, keep={pos}), pos, range(0, 6), {prm: "abcd"})
             except q.NotFoldable as e:
                 raise AnalysisError("_parse_timedelta loop test not foldable: %s" % e)
             ck.ob("C44.whole-text", td, lp.test, ts == {0, 1, 2, 3}, "the scan continues until the position reaches the end of the text (true-set for a 4-character text: %s)" % sorted(ts))
@@ -528,7 +570,7 @@ def rule_whole_text(ck):
     k = 0
     for node, c in parse.cfg.find(lambda x: isinstance(x, ast.Call) and isinstance(x.func, ast.Attribute) and x.func.attr in ("partition", "split") and x.args and q.is_const(x.args[0], ":")):
         k += 1
-        ok = any(pol and t.startswith("issubclass(self.type") and "Integral" in t or pol and t in ("self.type is int", "self.type == int") for t, pol in facts[node.id])
+        ok = any(pol and t.startswith("issubclass(self.type") and "Integral" in t or pol and t in ("self.type is int", "self.type == int") for t, pol in expanded_facts(parse, facts[node.id]))
         ck.ob("C44.whole-text", parse, c, ok, "the lo:hi range syntax is applied only to integral options (a ':' in a str/datetime value is data)")
     ck.floor("C44.whole-text", k, 1, "range splits in _Option.parse")
     # command-line scan starts at index 1
